@@ -14,5 +14,14 @@ if [ "$(jq -r .property "$1" 2>/dev/null)" = "C11" ]; then
   VERIF_REPLAY="$(readlink -f "$1")" "$BIN" -test.count=1 2>&1 | grep -v '^PASS$\|^ok '
   exit "${PIPESTATUS[0]}"
 fi
+if [ "$(jq -r '.case.kind // ""' "$1" 2>/dev/null)" = "worker-lease" ]; then
+  # worker-side part of C15 (testing/synctest): the test binary re-runs the one recorded case
+  go1.26.8 test -vet=off -tags verif -overlay "$OVLJSON" -c -o "$BIN" ./checks/c15w/ || exit 2
+  OUT="$OVLDIR/c15w.json"
+  VERIF_C15W_REPLAY="$(jq -c .case "$1")" VERIF_C15W_JSON="$OUT" "$BIN" -test.count=1 -test.run '^TestWorkerLeases$' >/dev/null 2>&1 || { echo "INFRA: replay did not run to completion (not a verdict)"; exit 2; }
+  jq -r '.violations // [] | .[] | "\(.sig): \(.detail)"' "$OUT"
+  if [ "$(jq '.violations // [] | length' "$OUT")" -gt 0 ]; then echo "VIOLATION property=C15 replay=$1"; exit 1; fi
+  echo "replay: property holds on this case"; exit 0
+fi
 go1.26.8 build -tags verif -overlay "$OVLJSON" -o "$BIN" ./cmd/verifx || exit 2
 "$BIN" replay "$1"
